@@ -391,6 +391,55 @@ def gen_ops(forms, name2ids, rng, tier):
                         seen.add(l)
                         ops.append(l)
                         meta.append((mov_form, "mov-structured"))
+    # movi / mvni / fmov (vector and scalar, immediate): structured immediates.  The monitor judges movi / mvni by the vector the
+    # word loads (moviOk: AdvSIMDExpandImm against `#imm {, LSL|MSL #n}` over the arrangement) and fmov by the expanded imm8
+    # (fmovImmOk), so a packer that maps a byte of a 64-bit byte mask to the wrong abc:defgh bit is a BAD line.
+    def add(l, tag, form_name):
+        if l not in seen:
+            seen.add(l)
+            ops.append(l)
+            meta.append((form_of.get(form_name, 0), tag))
+    form_of = {}
+    for i, f in enumerate(forms):
+        form_of.setdefault(f["name"], i)
+    for nm in ("movi", "mvni"):
+        for iid in name2ids.get(nm, []):
+            # all 256 byte masks into Dd and Vd.2D (cmode 1110, op 1)
+            for m8 in range(256):
+                v = sum(0xFF << (8 * b) for b in range(8) if (m8 >> b) & 1)
+                add("emit 0 %d 0 r10.%d i%x" % (iid, 16 + (m8 % 3), v), "movi-bytemask", nm)
+                add("emit 0 %d 0 r11.%d.4 i%x" % (iid, 1 + (m8 % 30), v), "movi-bytemask", nm)
+            # per cmode: 8-bit, 16-bit (LSL 0/8), 32-bit (LSL 0..24, MSL 8/16) - imm8 and shift at and beyond the limits
+            for et, shifts in ((1, (0, 8)), (2, (0, 8, 16)), (3, (0, 8, 16, 24, 32))):
+                for rt in (10, 11):
+                    for i8 in (0, 1, 0x7F, 0x80, 0xAB, 0xFF, 0x100):
+                        for sh in shifts:
+                            add("emit 0 %d 0 r%d.3.%d i%x i%x.0" % (iid, rt, et, i8, sh), "movi-cmode", nm)
+                            add("emit 0 %d 0 r%d.3.%d i%x" % (iid, rt, et, i8 << sh), "movi-cmode", nm)     # shift left to the assembler
+                        if et == 3:
+                            for sh in (0, 8, 16, 24):
+                                add("emit 0 %d 0 r%d.3.%d i%x i%x.5" % (iid, rt, et, i8, sh), "movi-cmode", nm)
+                    # values that halve to a smaller element (0xABAB -> bytes, 0x00AB00AB -> half-words) and that do not
+                    for v in (0xABAB, 0xAB00AB, 0xABABABAB, 0xAB00, 0xAB0000, 0xAB000000, 0xAB00AB00, 0x1234, 0xFFFF, 0xFFFFFFFF, 0xFF00FF, 0x12345678):
+                        add("emit 0 %d 0 r%d.3.%d i%x" % (iid, rt, et, v), "movi-cmode", nm)
+            # 64-bit elements: non-mask values whose halves are equal fall back to 32-bit elements, others are refused
+            for v in (0x000000AB000000AB, 0x0000AB000000AB00, 0xAB000000AB000000, 0x00000000000000AB, 0x0100000000000000, 0xFF000000000000FE,
+                      0x00FF00FF00FF00FF, 0xFF00FF00FF00FF00, 0x123456789ABCDEF0):
+                add("emit 0 %d 0 r11.2.4 i%x" % (iid, v), "movi-cmode", nm)
+                add("emit 0 %d 0 r10.2 i%x" % (iid, v), "movi-cmode", nm)
+    # fmov #imm: every one of the 256 encodable values (VFPExpandImm, as a double) and neighbours, into H/S/D scalars and vectors
+    for iid in name2ids.get("fmov", []):
+        for i8 in range(256):
+            a, b, cdefgh = (i8 >> 7) & 1, (i8 >> 6) & 1, i8 & 0x3F
+            bits = (a << 63) | ((b ^ 1) << 62) | ((0xFF if b else 0) << 54) | (cdefgh << 48)
+            dests = ("r8.%d" % (i8 % 32), "r9.%d" % (i8 % 32), "r10.%d" % (i8 % 32), "r10.%d.2" % (i8 % 32), "r11.%d.2" % (i8 % 32),
+                     "r10.%d.3" % (i8 % 32), "r11.%d.3" % (i8 % 32), "r11.%d.4" % (i8 % 32))
+            for dst in (dests if i8 % 8 in (0, 7) or i8 in (0x70, 0x80, 0xFF, 0x3F, 0x40) else dests[i8 % 8:i8 % 8 + 2]):
+                add("emit 0 %d 0 %s f%x" % (iid, dst, bits), "fmov-imm8", "fmov")
+            if i8 % 16 == 0:
+                for bad in (bits + 1, bits | (1 << 47), bits ^ (1 << 62)):
+                    add("emit 0 %d 0 r11.3.4 f%x" % (iid, bad), "fmov-imm8", "fmov")
+                    add("emit 0 %d 0 r9.3 f%x" % (iid, bad), "fmov-imm8", "fmov")
     return ops, meta
 
 
